@@ -186,32 +186,6 @@ def leftOut {α : Type} [DecidableEq α] : List α → List α → Option (List 
     if g = e then leftOut gs es
     else (leftOut (g :: gs) es).map (e :: ·)
 
-def dotted (n : Ref.Name) : BList := n.flatMap fun l => l ++ [0x2E]
-
-/-- what the crate's decoder shows for a record read by the reference reader
-    (names unescaped and dotted; TTL 0 of a response stored as 1) -/
-def viewRec (resp : Bool) (r : Ref.Record) : Option Wire.Rec :=
-  let rd : Option Wire.RData := match r.rdata with
-    | .a ip => some (.a ip)
-    | .aaaa ip => some (.aaaa ip)
-    | .ptr n => some (.ptr (dotted n))
-    | .srv p w port n => some (.srv p w port (dotted n))
-    | .txt b => some (.txt b)
-    | .other _ => none
-  rd.map fun rd => { name := dotted r.name, ty := r.type, cls := r.cls, flush := r.flush,
-                     ttl := if r.ttl = 0 ∧ resp then 1 else r.ttl, rdata := rd, start := 0, stop := 0 }
-
-def viewMsg (m : Ref.Msg) : Option Wire.Msg :=
-  let resp := m.flags / 32768 % 2 == 1
-  let sec (rs : List Ref.Record) : Option (List Wire.Rec) := rs.mapM (viewRec resp)
-  match sec m.answers, sec m.authorities, sec m.additionals with
-  | some an, some au, some ad =>
-    some { id := m.id, flags := m.flags,
-           questions := m.questions.map fun q =>
-             { name := dotted q.name, ty := q.qtype, cls := q.qclass % 32768, flush := decide (q.qclass ≥ 32768) },
-           answers := an, authorities := au, additionals := ad }
-  | _, _, _ => none
-
 /-- the crate's own decoder observations after the `;` -/
 def pDecs : Nat → P (List (Option Wire.Msg))
   | 0 => fun ts => some ([], ts)
